@@ -259,6 +259,9 @@ class Unit:
         self.guards = {}          # (class, field) -> (condition, label)
         self.volatile = set()     # (class, field) read with an environment step first
         self.write_guarantees = {}   # (class, field) -> [(expr, label)] obligations after each write
+        self.apply_fun = None     # name of the spec function apply(callable_value, arg) for calls of ANY-sorted values
+        self.class_object_field = None   # ghost field of an instance holding its class object (for classmethods with a symbolic class)
+        self.isinstance_fun = None   # name of the spec function used for isinstance(x, <class-valued expression>)
         self.guarantee_exempt = set()   # qualnames of functions that run while no other thread exists (their post states the initial invariant)
         self.interference = None  # thread-modular environment step (DESIGN §5): see interfere()
         self.env = {}             # dotted name -> trusted FuncC (library functions)
